@@ -147,6 +147,7 @@ class World:
         self.last_applied = None
         self.matcache = {}      # shared material objects of this lens
         self.nested = False
+        self.saved = []         # (path, exact) of the files written so far
         self.shape = []
 
     # ---- helpers
@@ -154,7 +155,7 @@ class World:
         """Property that owns the oracle of the current operation."""
         if self.opname == 'scale':
             return 'C07'
-        if self.opname == 'ckpt':
+        if self.opname in ('ckpt', 'reload'):
             return 'C19'
         return 'C01'
 
@@ -192,7 +193,7 @@ class World:
     # ---- one step
     def _model_print(self):
         m = self.model
-        return repr((m.expected(), m.pickups, m.solves, m.fields,
+        return repr((m.surfs, m.aperture, m.pickups, m.solves, m.fields,
                      m.field_type, m.wls, m.synced))
 
     def step(self, op):
@@ -781,6 +782,7 @@ class World:
                                 f'C19/ckpt/load-raises/{norm_msg(e)}',
                                 f'load_optiland_file raised {e!r}')
             ref = json.loads(self.fs.files[path])
+            self.saved.append((path, exact))
             self.probe('ckpt_file')
         else:
             try:
@@ -852,6 +854,36 @@ class World:
             self.fault('restart_from_' + mode)
             if self.stats['state_changes'] >= 5:
                 self.probe('restart_after_5_edits')
+
+    def op_reload(self, op):
+        """A file written at an earlier checkpoint is loaded once more.  What
+        is durable does not change because a lens loaded from it (the one the
+        history went on with after a restart) has been edited since."""
+        if not self.saved:
+            raise NotApplicable('nothing saved yet')
+        path, exact = self.saved[op.get('which', 0) % len(self.saved)]
+        try:
+            with self.fs.mounted(), quiet(), warnings.catch_warnings():
+                warnings.simplefilter('ignore')
+                from optiland.fileio import load_optiland_file
+                L3 = load_optiland_file(path)
+                d3 = L3.to_dict()
+        except Exception as e:
+            raise Violation('sut-exception',
+                            f'C19/reload/load-raises/{norm_msg(e)}',
+                            f'loading {path} a second time raised {e!r}')
+        ref = json.loads(self.fs.files[path])
+        tol = {} if exact else {'rtol': 1e-9, 'atol': self.ztol()}
+        ok, where = same(canon(d3), canon(ref), **tol)
+        self.stats['oracle_checks'] += 1
+        if not ok:
+            key = '/'.join(x for x in where.split(':')[0].split('/')
+                           if x and not x.isdigit())
+            raise Violation('roundtrip', f'C19/reload/dict-differs/{key}',
+                            f'the lens loaded from {path} a second time '
+                            f'differs from the content of the file at '
+                            f'{where}')
+        self.probe('reload_old_file')
 
     def compare_behaviour(self, A, B, op, exact, J=None):
         rays = op.get('rays') or [[0.0, 0.0, 0.0, 1.0, 0]]
@@ -1505,6 +1537,8 @@ def gen_edit(ch, w, sw):
                 'front': ch.pick(['generic', 'lsq']),
                 'target': ch.rounded(ch.uniform(20, 200), 4),
                 'plan': optsim.gen_plan(ch, len(vs), ch.randint(1, 6))}
+    if kind == 'ckpt' and w.saved and ch.chance(0.2):
+        return {'op': 'reload', 'which': ch.randint(0, len(w.saved) - 1)}
     if kind == 'ckpt':
         nr = ch.randint(2, 7)
         rays = []
@@ -1544,7 +1578,7 @@ def gen_edit(ch, w, sw):
 
 C07_FEATS = ['conic', 'tilt', 'mirror', 'glass', 'abbe', 'absorb',
              'finite_obj', 'vignette', 'aperture', 'multi_wl', 'fno', 'na',
-             'planes', 'stop_any', 'glass_str', 'units']
+             'planes', 'stop_any', 'glass_str', 'units', 'int_lengths']
 C19_FEATS = [x for x in lensgen.ALL_FEATURES if x != 'bsdf']
 C01_FEATS = [x for x in lensgen.ALL_FEATURES
              if x not in ('bsdf', 'coat_simple', 'coat_fresnel', 'polarized',
